@@ -9,5 +9,5 @@ CONFIG = dict(
     modelled=["the key-location index is abstracted to 'newest valid stored location per key' (C06 proves the refinement absent reported discards; the harness uses a 9973-entry table)",
               "sector-level device writes of the block-device allocator are not modelled here (block contents are byte arrays written per upload chunk)",
               "SHA-256 as identity of content (an upload is valid iff its bytes equal the object's canonical content)",
-              "schedules at the granularity of lock-protected sections / upload chunks / slicer hand-off; Go sync primitives trusted"],
+              "schedules at the granularity of lock-protected sections / upload chunks / slicer hand-off; Go sync primitives trusted; integrity callbacks landing INSIDE a Put (between the sub-steps of findBlockWithSpace) are the subject of the sub-check C08Q (harness/c08q.go, Store/Quarantine.v, Props/C08Q.v), whose cases are folded into this check"],
 )
